@@ -126,6 +126,9 @@ class Program:
                     raise AnalysisError(f"{rel} does not compile: {e}") from None
                 m = Module(modname, path, rel, src, tree, hashlib.sha256(raw).hexdigest())
                 self.modules[modname] = m
+        # names that a later change only renamed are renamed back before anything is indexed (renames.py)
+        from . import renames as _renames
+        self.renames: Dict[str, str] = _renames.canonicalise({m.name: m.tree for m in self.modules.values()}) if self.package == PACKAGE else {}
         for m in self.modules.values():
             self._index_module(m)
 
